@@ -117,7 +117,7 @@ pub fn c02() -> TreeProp {
     gen: Box::new(|rng, thorough| {
       let cfg = ascii_cfg(if thorough { 4 } else { 3 });
       let t = TreeGen::new().tree(rng, &cfg, cfg.depth, false);
-      single(t, vec![Op::Src, Op::Stream(true, false), Op::Stream(false, false), Op::Stream(true, true), Op::Stream(false, true)], "C02")
+      single(t, vec![Op::Src, Op::Stream(true, false), Op::Stream(false, false), Op::Stream(true, true), Op::Stream(false, true), Op::Stream(true, false), Op::Stream(false, false), Op::Stream(true, true), Op::Stream(false, true)], "C02")
     }),
     oracle: Box::new(|c, outs| {
       let mut v = vec![];
@@ -286,7 +286,8 @@ pub fn c11() -> TreeProp {
     gen: Box::new(|rng, thorough| {
       let cfg = ascii_cfg(if thorough { 4 } else { 3 });
       let t = TreeGen::new().tree(rng, &cfg, cfg.depth, false);
-      single(t, vec![Op::Src, Op::Map(true), Op::Map(false), Op::Stream(true, false), Op::Stream(false, false), Op::Stream(true, true), Op::Stream(false, true)], "C11")
+      // maps and streams once more at the end: by then every CachedSource in the tree answers from its cache
+      single(t, vec![Op::Src, Op::Map(true), Op::Map(false), Op::Stream(true, false), Op::Stream(false, false), Op::Stream(true, true), Op::Stream(false, true), Op::Map(true), Op::Map(false), Op::Stream(true, false), Op::Stream(true, true)], "C11")
     }),
     oracle: Box::new(|c, outs| {
       let mut v = vec![];
